@@ -23,7 +23,7 @@ Template directives (see DESIGN.md 3.2/3.3):
   hint <where>:
       verus statements
   @*/
-  where <where> is one of: start | end | loop K before | loop K start | loop K end | before `text` [#n] | after `text` [#n]
+  where <where> is one of: start | end | loop K before | loop K start | loop K end | loop K after | before `text` [#n] | after `text` [#n]
 
 The body text of every function is copied verbatim; only the generic rules of rules.py touch it.
 Everything the extractor cannot place is a LostAnchor (exit 2 = undecided), never a violation.
@@ -477,7 +477,7 @@ def apply_hints(body, hints):
     ins = []  # (index, text)
     heads = None
     for where, text in hints:
-        m = re.match(r'loop\s+(\d+)\s+(start|end|before)$', where)
+        m = re.match(r'loop\s+(\d+)\s+(start|end|before|after)$', where)
         if where == 'start':
             ins.append((0, '\n' + text + '\n'))
         elif where == 'end':
@@ -491,6 +491,8 @@ def apply_hints(body, hints):
             kw, ob, cb = heads[k - 1]
             if m.group(2) == 'before':
                 ins.append((kw, '\n' + text + '\n'))
+            elif m.group(2) == 'after':
+                ins.append((cb + 1, '\n' + text + '\n'))
             else:
                 ins.append((ob + 1, '\n' + text + '\n') if m.group(2) == 'start' else (cb, '\n' + text + '\n'))
         else:
@@ -726,7 +728,10 @@ def _emit_template_text(text, em, report, unit):
             i += 1
             continue
         ml = LEMMA_RX.match(ln)
-        if ml and ('proof fn' in ln or re.match(r'\s*(pub\s+)?fn\s', ln)):
+        prev = lines[i - 1] if i > 0 else ''
+        # obligations are the template's own `proof fn` lemmas; prelude items marked external_body /
+        # axiom are trusted (scanned separately), plain exec fns in templates are helpers or `main`
+        if ml and 'proof fn' in ln and 'external_body' not in prev and 'axiom fn' not in ln:
             # find the end of this fn by brace matching on the remaining text
             rest = '\n'.join(lines[i:])
             mask = code_mask(rest)
